@@ -593,6 +593,26 @@ class Interp:
             if key:
                 st.env[key] = v
             st.events.append(("store", norm(target), v))
+        elif isinstance(target, ast.Subscript) and State.heap and isinstance(target.slice, ast.Slice):
+            # lst[a:b] = values on a shared list
+            st.events.append(("store", norm(target), v))
+            base = self.eval(target.value, st)
+            if len(base) == 1 and isinstance(base[0][0], Const) and isinstance(base[0][0].v, MList) and isinstance(v, Const) \
+                    and isinstance(v.v, (list, tuple)):
+                bounds = []
+                for pe in (target.slice.lower, target.slice.upper, target.slice.step):
+                    if pe is None:
+                        bounds.append(None)
+                        continue
+                    r_ = self.eval(pe, st)
+                    if len(r_) != 1 or not isinstance(r_[0][0], Const):
+                        return None
+                    bounds.append(r_[0][0].v)
+                try:
+                    base[0][0].v[slice(*bounds)] = list(v.v)
+                except Exception as ex:
+                    return type(ex).__name__
+            return None
         elif isinstance(target, ast.Subscript) and State.heap and not isinstance(target.slice, ast.Slice):
             st.events.append(("store", norm(target), v))
             base = self.eval(target.value, st)
